@@ -123,7 +123,7 @@ def retainStep (b : B) (m : Msg) : B × Msg :=
   if !m.p.retain then (b, m)
   else if m.p.payload.isEmpty then
     ({ b with topics := (b.topics.retain (toRMsg m.p)).1 }, m)
-  else if Mqtt.Model.Topics.checkSys m.p.topic || !(Mqtt.Model.Topics.levels m.p.topic).2 then
+  else if Mqtt.Model.Topics.checkTopic m.p.topic || !(Mqtt.Model.Topics.levels m.p.topic).2 then
     -- Retain turns a topic beginning with '$' away, or rinsert fails while walking
     -- the levels: either way before the message is encoded at the leaf
     ({ b with topics := (b.topics.retain (toRMsg m.p)).1 }, m)
